@@ -233,10 +233,25 @@ def r3_fifo(ctx, rule="C03.R3"):
                 users.setdefault(fn.name, []).append(mir.callee_path(t).split("::")[-1])
     ctx.decide(users.get("enqueue_to_return_stack") == ["push_back"], rule, rule + ":enqueue-at-back", "subprogram.rs",
                "enqueue pushes at the back", "enqueue_to_return_stack does %s" % users.get("enqueue_to_return_stack"))
-    ctx.decide(users.get("dequeue_from_return_stack") == ["pop_front"], rule, rule + ":dequeue-at-front", "subprogram.rs",
-               "dequeue pops at the front (left-to-right write-back)",
-               "dequeue_from_return_stack does %s: by-ref values are written back in the wrong order"
-               % users.get("dequeue_from_return_stack"))
+    deq = users.get("dequeue_from_return_stack")
+    discipline = {"pop_front": "FIFO", "pop_back": "LIFO"}.get(deq[0]) if deq and len(deq) == 1 else None
+    # the generator side: in which order are the values stashed / written back?
+    stash = ctx.anchor_method("InstructionGenerator", "generate_stash_by_ref_args")
+    un = ctx.anchor_method("InstructionGenerator", "generate_un_stash_by_ref_args")
+
+    def reversed_loop(f):
+        return any(mir.callee_path(t).split("::")[-1] == "rev" for _b, t in f.body.calls())
+    stash_rev, un_rev = reversed_loop(stash), reversed_loop(un)
+    ctx.decide(not un_rev, rule, rule + ":write-back-left-to-right", un.loc,
+               "the write-back loop runs over the arguments in order",
+               "generate_un_stash_by_ref_args iterates the arguments in reverse: when two arguments alias, the "
+               "first parameter's value wins instead of the last")
+    first_first = discipline is not None and ((discipline == "FIFO") != stash_rev)
+    ctx.decide(first_first, rule, rule + ":dequeue-at-front", "subprogram.rs",
+               "the value of the first by-ref argument is the first one taken back (%s container, stash loop %s)"
+               % (discipline, "reversed" if stash_rev else "forward"),
+               "dequeue_from_return_stack does %s (%s) while the generator stashes the arguments %s: by-ref values "
+               "are written back in the wrong order" % (deq, discipline, "in reverse" if stash_rev else "in order"))
     others = {k: v for k, v in users.items() if k not in ("enqueue_to_return_stack", "dequeue_from_return_stack", "new")}
     ctx.decide(not others, rule, rule + ":no-other-user", "rusty_basic", "queue touched by enqueue/dequeue only",
                "by_ref_stack is also used by %s" % others)
@@ -251,7 +266,7 @@ def r3_fifo(ctx, rule="C03.R3"):
             ok = mir.strip_all(pv.of_operand(t["args"][1])) == ("param", 1)
     ctx.decide(ok, rule, rule + ":enqueue-reads-argument-index", f[0].loc, "context()[index]",
                "enqueue_to_return_stack no longer reads the callee variable at the argument's index")
-    ctx.require(rule, 4)
+    ctx.require(rule, 5)
 
 
 def r4_activation_pairing(ctx, rule="C03.R4"):
@@ -367,8 +382,11 @@ def r9_queue_not_reentered(ctx, rule="C03.R9"):
         reach = prog.reachable_from([e.callee])
         if stash.id in reach:
             reentrant.append(e.callee.name)
-    ctx.decide(not reentrant, rule, rule + ":write-back-does-not-reenter-the-queue", un.loc,
-               "no call template can be emitted while values are queued",
+    # a stack (push and pop at the same end) is safe to re-enter: the nested call pops exactly what it pushed
+    deq_fn = [f for f in prog.fns.values() if f.name == "dequeue_from_return_stack"]
+    lifo = bool(deq_fn) and any(mir.callee_path(t).split("::")[-1] == "pop_back" for _b, t in deq_fn[0].body.calls())
+    ctx.decide(not reentrant or lifo, rule, rule + ":write-back-does-not-reenter-the-queue", un.loc,
+               "no call template can be emitted while values are queued, or the container is a stack",
                "after DequeueFromReturnStack the write-back emits %s, which can emit a nested call template "
                "(index expressions containing function calls are evaluated again): the nested call's "
                "dequeue takes the value queued for the next outer argument" % sorted(set(reentrant)))
